@@ -1831,6 +1831,11 @@ func requiredLandmarkAlternativeMatch(input []rune, start, endAt int, alt syntax
 	for matchStart > 0 && alt.LeadingWhitespaceSet != nil && alt.LeadingWhitespaceSet.CharIn(input[matchStart-1]) {
 		matchStart--
 	}
+	if len(alt.Literal) == 0 {
+		// A repeated set may stop anywhere from MinRepeat on, and the next landmark may begin
+		// inside the rest of the run ([ab]{1,3}a on "aba"): only MinRepeat runes are certain.
+		end = start + alt.MinRepeat
+	}
 	return requiredLandmarkMatch{Start: matchStart, CoreStart: start, End: end}, true
 }
 
